@@ -120,6 +120,7 @@ func poolIDs(local []byte, pool []uint64) [][]byte {
 type job struct {
 	Histories []history `json:"histories,omitempty"`
 	Ids       []idCase  `json:"ids,omitempty"`
+	Conc      *concJob  `json:"conc,omitempty"`
 	ChildOut  string    `json:"child_out,omitempty"`
 	MaxStack  int       `json:"max_stack,omitempty"`
 	// a replay file written by ./check holds one history (or id case) directly
@@ -238,12 +239,12 @@ func checkTable(h *history, v tableView, raw map[common.PeerId][]byte, local []b
 		for _, p := range b {
 			if j, dup := seen[p.ID]; dup {
 				add("structure:duplicate-peer", "a peer appears more than once in the table",
-					map[string]interface{}{"peer": p.ID.ToHexString(), "buckets": []int{j, i}}, "at most once")
+					map[string]interface{}{"peer": idHex(p.ID), "buckets": []int{j, i}}, "at most once")
 			}
 			seen[p.ID] = i
 			rb, ok := raw[p.ID]
 			if !ok {
-				add("structure:unknown-peer", "the table holds a peer that was never inserted", p.ID.ToHexString(), "a peer of the history")
+				add("structure:unknown-peer", "the table holds a peer that was never inserted", idHex(p.ID), "a peer of the history")
 				continue
 			}
 			c := refCPL(rb, local)
@@ -279,11 +280,11 @@ func checkNearest(out []common.PeerIDAddressPair, target []byte, count int64, v 
 	var prev *big.Int
 	for k, p := range out {
 		if seen[p.ID] {
-			add("nearest:duplicate", "NearestPeers returned a peer twice", p.ID.ToHexString(), "distinct peers")
+			add("nearest:duplicate", "NearestPeers returned a peer twice", idHex(p.ID), "distinct peers")
 		}
 		seen[p.ID] = true
 		if !in[p.ID] {
-			add("nearest:not-in-table", "NearestPeers returned a peer that is not in the table", p.ID.ToHexString(), "peers of the table")
+			add("nearest:not-in-table", "NearestPeers returned a peer that is not in the table", idHex(p.ID), "peers of the table")
 			continue
 		}
 		d := refDist(raw[p.ID], target)
@@ -433,6 +434,9 @@ func runChild(j *job) {
 		emit(hobs{Idx: i, Begin: true})
 		emit(runHistory(&j.Histories[i], i))
 	}
+	if j.Conc != nil {
+		emit(runConcurrent(j.Conc))
+	}
 	emit(map[string]bool{"done": true})
 }
 
@@ -441,6 +445,7 @@ func runChild(j *job) {
 type childResult struct {
 	hist     map[int]*hobs
 	ids      map[int]*idobs
+	conc     *concObs
 	begun    int // index of the last history begun
 	done     bool
 	timedOut bool
@@ -499,6 +504,11 @@ func spawn(c *hx.Ctx, j *job, timeout time.Duration) childResult {
 		switch {
 		case bytes.HasPrefix(line, []byte(`{"done"`)):
 			r.done = true
+		case bytes.HasPrefix(line, []byte(`{"conc"`)):
+			var o concObs
+			if json.Unmarshal(line, &o) == nil {
+				r.conc = &o
+			}
 		case bytes.HasPrefix(line, []byte(`{"ididx"`)):
 			var o idobs
 			if json.Unmarshal(line, &o) == nil {
@@ -839,12 +849,39 @@ func probeReturns(c *hx.Ctx, h history, timeout time.Duration) bool {
 	return returned
 }
 
+// concurrentOracle runs the bounded concurrent oracle (conc.go) in a child of its own.
+func concurrentOracle(c *hx.Ctx, cj concJob) {
+	r := spawn(c, &job{Conc: &cj}, 40*time.Second)
+	in := map[string]interface{}{"conc": cj}
+	if r.conc == nil {
+		why := "the process crashed"
+		if r.timedOut {
+			why = "no result within the time limit (a call never returned)"
+		}
+		c.Fail("no-return-concurrent", "concurrent Update/Remove/NearestPeers calls on one table: "+why, in,
+			map[string]interface{}{"exit": r.exitErr, "timed_out": r.timedOut, "output": r.stderr}, "every call returns")
+		return
+	}
+	for i := 0; i < r.conc.Rounds; i++ {
+		c.Eval()
+	}
+	c.Count(fmt.Sprintf("concurrent:rounds=%d,calls=%d", r.conc.Rounds, r.conc.Calls))
+	c.Note(fmt.Sprintf("concurrent oracle: %d goroutines, %d rounds (%d calls) on one table in %d ms under %v", cj.G, r.conc.Rounds, r.conc.Calls, r.conc.Ms, r.conc.Settings))
+	for _, f := range r.conc.Fails {
+		c.Fail(f.Class, f.Clause, in, f.Got, f.Want)
+	}
+}
+
 func Run(c *hx.Ctx) {
 	c.CoqModule("Corr.C37")
 	var j job
 	if c.ReplayInput(&j) {
 		if j.ChildOut != "" {
 			runChild(&j)
+			return
+		}
+		if j.Conc != nil {
+			concurrentOracle(c, *j.Conc)
 			return
 		}
 		// a replay file of ./check: one history or one id case
@@ -867,6 +904,8 @@ func Run(c *hx.Ctx) {
 	hs = append(hs, probeSize1Local())
 	probeReturns(c, probeNonPositive(0), 30*time.Second)
 	probeReturns(c, probeNonPositive(-1), 30*time.Second)
+
+	concurrentOracle(c, concJob{Seed: c.Seed, G: 6, Rounds: c.N(1500, 15000), BudgetMs: c.N(1600, 12000), Size: 20})
 
 	n := c.N(300, 4000)
 	kinds := []string{"random", "close", "close", "deep", "churn", "full", "close"}
